@@ -67,7 +67,7 @@ int disasm_86000(
           snprintf(instruction, length, "%s @r%d", table_86000[n].name, reg);
           return 1;
         case OP_ADDRESS_RELATIVE8:
-          value = memory->read8(address + 1);
+          value = ((opcode & 1) << 8) | memory->read8(address + 1);
           offset = memory->read8(address + 2);
 
           snprintf(instruction, length, "%s 0x%02x, 0x%04x (offset=%d)",
